@@ -44,6 +44,17 @@ CLAIMS = {
         "Trusts the interpreter as for C09; string truthiness is decided from literal content (an f-string with a non-empty "
         "literal part is truthy).",
         "DESIGN.md §4 C10"),
+    "C11": (
+        "enum value table vs Darwin reference + partial evaluation of every member-selection condition over the finite member "
+        "set + shift/mask extraction of the ioctl split",
+        "Decided for every flag family: because the member sets are finite, substituting each member into the selection "
+        "condition leaves a residual test on the word (bit test or masked-field equality) that is judged for all word values "
+        "at once - shown names have all their bits set, every declared value of a masked field is enumerated (taking into "
+        "account what iterating an enum.Flag class yields on the interpreter in use), every declared single bit is tested. "
+        "The ioctl split is shown to be the exact inverse of _IOC with disjoint fields covering 32 bits.",
+        "Reference values are transcriptions of XNU headers (vstatic/oracles/darwin.py). The access-mode selection loop of "
+        "serialize_open_flags (first match wins + for/else) is not decided for the undefined value 3.",
+        "DESIGN.md §4 C11"),
     "C12": (
         "pipeline recovery from the symbolic return term + normal-form comparison of predicates and applied-iff conditions",
         "Decided: the listing iterators are shown to be the container parser's generator wrapped only in filter stages, and "
